@@ -650,7 +650,13 @@ impl GenEnv {
                     X::Struct(k, fields)
                 }
                 T::FnNN => {
-                    let fs: Vec<String> = s.fns.iter().filter(|f| f.ptys == vec![T::Num] && f.ret == T::Num).map(|f| f.name.clone()).collect();
+                    // (a function name that a parameter shadows means the parameter)
+                    let fs: Vec<String> = s
+                        .fns
+                        .iter()
+                        .filter(|f| f.ptys == vec![T::Num] && f.ret == T::Num && !locals.iter().any(|(n, _)| n == &f.name))
+                        .map(|f| f.name.clone())
+                        .collect();
                     if fs.is_empty() {
                         // a library function Scalar -> Scalar that the reference knows: none; use a fresh one
                         X::FnName("c09_identity".into())
@@ -729,7 +735,7 @@ impl GenEnv {
             }
             5 | 6 => {
                 // call of a user function returning ty
-                let fs: Vec<FnSig> = self.fns.iter().filter(|f| &f.ret == ty).cloned().collect();
+                let fs: Vec<FnSig> = self.fns.iter().filter(|f| &f.ret == ty && !locals.iter().any(|(n, _)| n == &f.name)).cloned().collect();
                 if fs.is_empty() {
                     return leaf(self, r);
                 }
@@ -839,8 +845,14 @@ impl GenEnv {
                         2 if i == 0 => T::FnNN,
                         _ => T::Num,
                     };
+                    // a function-valued parameter may have the name of an earlier global function
+                    // of the same type: in the body the name means the parameter
+                    let same_type_fns: Vec<String> = self.fns.iter().filter(|s| s.ptys == vec![T::Num] && s.ret == T::Num).map(|s| s.name.clone()).collect();
                     // parameters may shadow globals and unit names
-                    let name = if *shadow && i == 0 && !self.vars.is_empty() && r.below(2) == 0 {
+                    let name = if t == T::FnNN && *shadow && !same_type_fns.is_empty() {
+                        self.shadowed = true;
+                        same_type_fns[r.below(same_type_fns.len())].clone()
+                    } else if *shadow && i == 0 && !self.vars.is_empty() && r.below(2) == 0 {
                         self.shadowed = true;
                         self.vars[r.below(self.vars.len())].0.clone()
                     } else if *shadow && i == 1 {
